@@ -1,0 +1,32 @@
+//go:build verif
+
+// Lock-discipline contracts for package storage (property C41; comment-only, read by /verif/govc).
+// This file contains no executable code.
+
+package storage
+
+//@ type PartitionLog
+//@   protected_by mu: nextOffset, segments, indexEntries, flushing, flushingBatches
+//@   immutable: namespace, topic, partition, s3, cache, cfg, buffer, onFlush, onS3Op, s3sem, flushCond
+//@   sync: mu, prefetchMu
+//@   complete
+
+//@ type WriteBuffer
+//@   protected_by mu: batches, sizeBytes, messageCount, lastFlush
+//@   immutable: cfg
+//@   sync: mu
+//@   complete
+
+//@ func NewPartitionLog
+//@   returns_fresh
+//@ func NewWriteBuffer
+//@   returns_fresh
+
+// prepareFlush: "Caller must hold l.mu."
+//@ func (l *PartitionLog) prepareFlush
+//@   requires_held mu
+
+// RestoreFromS3 reads l.nextOffset before taking l.mu: legal only while the log is not yet published
+// (cmd/broker getPartitionLog calls it between NewPartitionLog and the insertion into handler.logs).
+//@ func (l *PartitionLog) RestoreFromS3
+//@   unshared_receiver
